@@ -500,21 +500,7 @@ def wellKnownCommunity (s : String) : Option Nat :=
   else if s = "no-peer" then some 0xffffff04
   else none
 
-/-- the source of the compiled regular expression, `none` = `InvalidArgument`.
-    (The well-known arm formats `c as u32`, the enum *discriminant* 0..8, not the community
-    value: `"no-export"` becomes `^0:5$` — kept as the code has it.) -/
-def wellKnownIdx (s : String) : Option Nat :=
-  if s = "graceful-shutdown" then some 0
-  else if s = "accept-own" then some 1
-  else if s = "llgr-stale" then some 2
-  else if s = "no-llgr" then some 3
-  else if s = "blackhole" then some 4
-  else if s = "no-export" then some 5
-  else if s = "no-advertise" then some 6
-  else if s = "no-export-subconfed" then some 7
-  else if s = "no-peer" then some 8
-  else none
-
+/-- the source of the compiled regular expression, `none` = `InvalidArgument` -/
 def parseCommunity (env : RegexEnv) (s : String) : Option String :=
   match parseU32 s with
   | some v => some s!"^{v / 65536}:{v % 65536}$"
@@ -522,7 +508,7 @@ def parseCommunity (env : RegexEnv) (s : String) : Option String :=
       if hasDigitColonDigit s.toList then
         (let p := "^" ++ s ++ "$"; if env.valid p then some p else none)
       else
-        match wellKnownIdx s.toLower with
+        match wellKnownCommunity s.toLower with
         | some v => some s!"^{v / 65536}:{v % 65536}$"
         | none => if env.valid s then some s else none
 
